@@ -23,11 +23,45 @@ type compareMatch struct {
 	errTest bool
 }
 
+// keyComparators: Compare itself and the thin wrappers over it that the hash
+// routines may call: a function returning (int, error) that hands two of its
+// own parameters to Compare (it may decide some pairs of kinds itself first,
+// as the comparison of two symbol keys by number does).
+func (c *Ctx) keyComparators(cmp *ssa.Function) map[*ssa.Function]bool {
+	out := map[*ssa.Function]bool{cmp: true}
+	for _, g := range c.zygoFuncs() {
+		if g.Parent() != nil || g == cmp {
+			continue
+		}
+		res := g.Signature.Results()
+		if res.Len() != 2 || !isErrorType(res.At(1).Type()) {
+			continue
+		}
+		if bt, ok := res.At(0).Type().Underlying().(*types.Basic); !ok || bt.Kind() != types.Int {
+			continue
+		}
+		for _, site := range callsOf(g, cmp) {
+			args := site.Common().Args
+			nParam := 0
+			for _, a := range args {
+				if _, ok := a.(*ssa.Parameter); ok {
+					nParam++
+				}
+			}
+			if nParam >= 3 { // receiver and both operands
+				out[g] = true
+			}
+		}
+	}
+	return out
+}
+
 func (c *Ctx) compareMatches(f *ssa.Function, cmp *ssa.Function) []*compareMatch {
 	var out []*compareMatch
+	cmps := c.keyComparators(cmp)
 	eachInstr(f, func(b *ssa.BasicBlock, i int, in ssa.Instruction) {
 		call, ok := in.(*ssa.Call)
-		if !ok || call.Call.StaticCallee() != cmp {
+		if !ok || !cmps[call.Call.StaticCallee()] {
 			return
 		}
 		m := &compareMatch{call: call, blocks: map[*ssa.BasicBlock]bool{}, wellEq: true}
@@ -127,6 +161,7 @@ func checkC14(c *Ctx) {
 		return
 	}
 
+	c.checkSymbolKeysByNumber("C14-SYM")
 	// ---- C14-WM
 	allowed := map[string]string{
 		"SexpHash.HashSet": "set", "SexpHash.HashDelete": "delete", "SetHashKeyOrder": "reorder (decoders)",
@@ -692,4 +727,69 @@ func foundFlagFromMatch(ph *ssa.Phi, match map[*ssa.BasicBlock]bool, seen map[*s
 		}
 	}
 	return sawFalse
+}
+
+// checkSymbolKeysByNumber: a symbol is a hash key by what it is, not by what
+// it names. Compare follows a Selector operand (a dot-symbol x.y) to the value
+// it refers to before comparing; used on two keys it makes different symbols
+// with equal referents one key, and a symbol whose referent is unbound does
+// not match itself, so (hset h %x.y 1) (hset h %x.y 2) stores two entries
+// that hdel cannot remove. If Compare dereferences, the bucket routines must
+// match keys through a comparator that decides two symbols itself.
+func (c *Ctx) checkSymbolKeysByNumber(rule string) {
+	cmp := c.mustFn(rule, "Zlisp.Compare")
+	symT := c.named("SexpSymbol")
+	if cmp == nil || symT == nil {
+		return
+	}
+	derefs := false
+	eachInstr(cmp, func(b *ssa.BasicBlock, i int, in ssa.Instruction) {
+		if call, ok := in.(*ssa.Call); ok && call.Call.IsInvoke() && call.Call.Method.Name() == "RHS" {
+			derefs = true
+		}
+	})
+	if !derefs {
+		c.ok(rule, "Zlisp.Compare", "operands compared as they are", cmp.Pos(), "Compare does not follow selector operands to their referents")
+		return
+	}
+	cmps := c.keyComparators(cmp)
+	decidesSymbols := func(g *ssa.Function) bool {
+		if g == cmp {
+			return false
+		}
+		asserted := map[*ssa.Parameter]bool{}
+		eachInstr(g, func(b *ssa.BasicBlock, i int, in ssa.Instruction) {
+			ta, ok := in.(*ssa.TypeAssert)
+			if !ok {
+				return
+			}
+			if nm, ok := derefNamed(ta.AssertedType); !ok || nm != symT {
+				return
+			}
+			if p, ok := ta.X.(*ssa.Parameter); ok {
+				asserted[p] = true
+			}
+		})
+		return len(asserted) >= 2
+	}
+	n := 0
+	for _, name := range []string{"SexpHash.HashSet", "SexpHash.HashDelete", "SexpHash.HashGetDefault"} {
+		f := c.mustFn(rule, name)
+		if f == nil {
+			continue
+		}
+		eachInstr(f, func(b *ssa.BasicBlock, i int, in ssa.Instruction) {
+			call, ok := in.(*ssa.Call)
+			if !ok || !cmps[call.Call.StaticCallee()] {
+				return
+			}
+			n++
+			c.check(decidesSymbols(call.Call.StaticCallee()), rule, name, "symbol keys matched by number", call.Pos(),
+				"stored key and look-up key go through a comparator that decides two symbols by their numbers before it falls back to Compare",
+				"a stored key is matched with Compare, which follows a dot-symbol to the value it names: two different symbol keys with equal referents are one key, and a symbol key whose referent is unbound does not match itself, so it is stored twice, not found and not deletable")
+		})
+	}
+	if n < 3 {
+		c.undecided(rule, "hashutils.go", "key comparisons", token.NoPos, fmt.Sprintf("only %d key comparisons found in set/delete/get", n))
+	}
 }
